@@ -61,3 +61,55 @@ func ruleC03(c *Check, p *Prog) {
 	c.Explanation = "equivalence with reference formulations (work in progress)"
 	runNumSpecs(c, p, c03Specs)
 }
+
+var c04Specs = []numSpec{
+	{"R-EQUIV", "MatrixRankProto", eqSpec{Pkg: pkgRoot, Name: "MatrixRankProto", RefName: "MatrixRankProto", Dom: withParam(withParam(domLen(2048, 90000), 1, 2, 32), 2, 2, 32)}, "row-major fill of every cell of the reused matrix per block, classes full/full-1/rest, 0.2888/0.5776/0.1336, igamc(1,V/2)"},
+	{"R-EQUIV", "rank", eqSpec{Pkg: pkgRoot, Name: "rank", RefName: "rank", Dom: map[string]Domain{"param:1": {Lo: 2, Hi: 32}}}, "private copy, elimination, count of non-zero rows"},
+	{"R-EQUIV", "rowEchelon", eqSpec{Pkg: pkgRoot, Name: "rowEchelon", RefName: "rowEchelon", Dom: map[string]Domain{"param:1": {Lo: 2, Hi: 32}}}, "GF(2) forward elimination: pivot search from the current row, xor-swap, elimination below, column advance"},
+	{"R-EQUIV", "LinearComplexityProto", eqSpec{Pkg: pkgRoot, Name: "LinearComplexityProto", RefName: "LinearComplexityProto", Dom: withParam(domLen(1000, 90000), 1, 2, 40)}, "block copy i*m+j, mu, T=(-1)^m(L-mu)+2/9, seven classes, pi table, igamc(3,V/2)"},
+	{"R-EQUIV", "linearComplexity", eqSpec{Pkg: pkgRoot, Name: "linearComplexity", RefName: "linearComplexity", Dom: map[string]Domain{"param:1": {Lo: 2, Hi: 40}}}, "Berlekamp-Massey with scratch polynomial of degree M"},
+	{"R-EQUIV", "MaurerUniversalTest", eqSpec{Pkg: pkgRoot, Name: "MaurerUniversalTest", RefName: "MaurerUniversalTest", Dom: domLen(9000, 900000)}, "L=7, Q=1280, K=n/7-Q, last-occurrence table, log2 distances, c(L,K), expected 6.1962507, variance 3.125"},
+}
+
+func ruleC04(c *Check, p *Prog) {
+	c.Explanation = "equivalence with reference formulations (work in progress)"
+	runNumSpecs(c, p, c04Specs)
+}
+
+var c05Specs = []numSpec{
+	{"R-EQUIV", "DiscreteFourierTransformTest", eqSpec{Pkg: pkgRoot, Name: "DiscreteFourierTransformTest", RefName: "DiscreteFourierTransformTest", Dom: domLen(100, 90000)}, "+-1 fill of a zero buffer of size ceilPow2(n), fft.New + Transform, threshold sqrt(2.995732274 n), count i < n/2-1 strict, N0, 3.8 divisor"},
+	{"R-EQUIV", "ceilPow2", eqSpec{Pkg: pkgRoot, Name: "ceilPow2", RefName: "ceilPow2", Dom: map[string]Domain{"param:0": {Lo: 1, Hi: 1 << 20}}}, "least power of two >= max(N,2)"},
+}
+
+func ruleC05(c *Check, p *Prog) {
+	c.Explanation = "equivalence with reference formulations (work in progress)"
+	runNumSpecs(c, p, c05Specs)
+}
+
+var fdom = map[string]Domain{"param:0": {FLo: 0.5, FHi: 50}, "param:1": {FLo: 0.01, FHi: 80}}
+
+var c06Specs = []numSpec{
+	{"R-EQUIV", "igamc", eqSpec{Pkg: pkgRoot, Name: "igamc", RefName: "igamc", Dom: fdom}, "Cephes igamc: clamps, series/continued-fraction switch, prefactor with underflow cut, CF recurrences, MACHEP exit"},
+	{"R-EQUIV", "igam", eqSpec{Pkg: pkgRoot, Name: "igam", RefName: "igam", Dom: fdom}, "Cephes igam: clamps, complement switch, power series, MACHEP exit"},
+	{"R-EQUIV", "Igamc", eqSpec{Pkg: pkgRoot, Name: "Igamc", RefName: "Igamc", Dom: fdom}, "exported wrapper is igamc"},
+}
+
+func ruleC06(c *Check, p *Prog) {
+	c.Explanation = "equivalence with reference formulations (work in progress)"
+	runNumSpecs(c, p, c06Specs)
+}
+
+var c19Specs = []numSpec{
+	{"R-EQUIV", "fft.lastPow2", eqSpec{Pkg: pkgFFT, Name: "lastPow2", RefName: "lastPow2", Dom: map[string]Domain{"param:0": {Lo: -2, Hi: 1<<27 + 2}}}, "errors below 2 and above 2^27; largest power of two <= N and its exponent"},
+	{"R-EQUIV", "fft.New", eqSpec{Pkg: pkgFFT, Name: "New", RefName: "fftNew", Dom: map[string]Domain{"param:0": {Lo: 2, Hi: 1 << 20}}}, "error propagation with zero FFT; N, p, roots(N), permutationIndex(p)"},
+	{"R-EQUIV", "fft.roots", eqSpec{Pkg: pkgFFT, Name: "roots", RefName: "roots", Dom: map[string]Domain{"param:0": {Lo: 2, Hi: 1 << 12}}}, "E[k] = cos(-2 pi k/N) + i sin(-2 pi k/N), k in [0,N)"},
+	{"R-EQUIV", "fft.permutationIndex", eqSpec{Pkg: pkgFFT, Name: "permutationIndex", RefName: "permutationIndex", Dom: map[string]Domain{"param:0": {Lo: 1, Hi: 12}}}, "bit-reversal table by doubling"},
+	{"R-EQUIV", "fft.inputPermutation", eqSpec{Pkg: pkgFFT, Name: "inputPermutation", RefName: "inputPermutation"}, "swap x[i], x[p[i]] iff i < p[i]"},
+	{"R-EQUIV", "fft.Transform", eqSpec{Pkg: pkgFFT, Name: "(FFT).Transform", RefName: "(FFT).Transform"}, "length refusal before any write; permutation; stages with stride halving, butterfly (i,i+n) with twiddles E[k s], E[s(k+n)]"},
+	{"R-EQUIV", "fft.Inverse", eqSpec{Pkg: pkgFFT, Name: "(FFT).Inverse", RefName: "(FFT).Inverse"}, "length refusal; reversal of indices 1..N/2-1 with N-i; forward transform; scale by 1/N"},
+}
+
+func ruleC19(c *Check, p *Prog) {
+	c.Explanation = "equivalence with reference formulations (work in progress)"
+	runNumSpecs(c, p, c19Specs)
+}
